@@ -5,7 +5,7 @@ CONSTANTS
   K = 2
   DtNum = 1
   DtDen = 4
-  Spots = {1,2,4}
+  Spots = {1,4}
   Vars = {1,4}
   Spots2 = {1}
   Configs <- Long1
